@@ -353,7 +353,11 @@ Definition step (s : st) (t : tid) : option st :=
   | TPub => step_pub s
   | TClose => step_close s
   | TAtt c => if (c <? ncons)%nat then step_att s c else None
-  | TStop c => if (c <? ncons)%nat then step_stop s c else None
+  | TStop c =>
+      (* StopConsume needs the consumer id that StartConsume returned: a stop can only begin once the attach has returned *)
+      if (c <? ncons)%nat then
+        match s_att s c with ADone => step_stop s c | _ => None end
+      else None
   | TCons c => if (c <? ncons)%nat then step_cons s c else None
   end.
 
